@@ -62,6 +62,13 @@ CLAIMED["C18"] = (
     "DESIGN.md 3/C18",
 )
 
+CLAIMED["C11"] = (
+    "crash monitor: every case in a child process with panic capture (catch_unwind + panic hook + progress file for aborts/SIGSEGV), all four evaluator kinds of both backends on finite points/boxes up to f32::MAX, shape wrappers with finite matrices, malformed-argument matrix; interval results checked for well-formedness; culprit op localised by prefix evaluation; witness shrinking",
+    "No panic, process death, spurious/missing error value or ill-formed interval on any case observed. Exploration over generated programs and finite inputs.",
+    "Inputs and constants are finite by construction; after the interpreter panicked on a box the JIT interval evaluator is not run on that box (same Interval code behind callbacks that abort).",
+    "DESIGN.md 3/C11",
+)
+
 NOT_YET = {}
 
 def main():
